@@ -67,11 +67,15 @@ def summary():
         rows.append(f"| {sid} | {own} | {m.get('summary', '')[:140]} | {m.get('needs', '')[:120]} | "
                     f"{'yes' if own in caught else 'NO'} ({', '.join(checks.get(own, {}).get('signatures', [])[:1])[:90]}) | "
                     f"{', '.join(c for c in caught if c != own) or '-'} |")
+    notes = {}
+    if os.path.exists(os.path.join(SEEDED, "NOTES.json")):
+        notes = json.load(open(os.path.join(SEEDED, "NOTES.json"))).get("first_pass", {})
+    rows = [r + f" {notes.get(r.split('|')[1].strip(), '')} |" for r in rows]
     with open(os.path.join(SEEDED, "SUMMARY.md"), "w") as f:
         f.write("# Seeded changes (from independent sub-agents) and the checks that catch them\n\n"
                 "Each directory holds patch.diff, demo.py (fails with the change, passes without) and meta.json.\n"
                 "Evaluated with `selftest/eval_seeded.py` (quick tier, VERIF_SEED=0, scratch copy of /repo/src).\n\n"
-                "| id | property | change | needs | caught by its own check (first signature) | other checks that fire |\n|---|---|---|---|---|---|\n")
+                "| id | property | change | needs | caught by its own check (first signature) | other checks that fire | first pass / what was added |\n|---|---|---|---|---|---|---|\n")
         f.write("\n".join(rows) + "\n")
     print("\n".join(rows))
 
